@@ -4,11 +4,14 @@ import (
 	"bytes"
 	"fmt"
 	"sync"
+	"time"
 
 	"github.com/plgd-dev/go-coap/v3/message/pool"
 	"github.com/plgd-dev/go-coap/v3/mux"
 	"github.com/plgd-dev/go-coap/v3/options"
 	"github.com/plgd-dev/go-coap/v3/tcp"
+	tcpClient "github.com/plgd-dev/go-coap/v3/tcp/client"
+	tcpServer "github.com/plgd-dev/go-coap/v3/tcp/server"
 )
 
 // C07 — stream framing is independent of how bytes are segmented.
@@ -39,6 +42,7 @@ type c07Frame struct {
 	raw      []byte
 	hdrLen   int
 	signal   bool
+	filtered bool // the application's request monitor drops this message
 	oversize bool
 	declared uint64
 	start    int // offset in the stream
@@ -50,6 +54,9 @@ func c07Run(e *Env, tlsShim bool) {
 	cacheSize := []uint16{2048, 1, 2, 7, 64, 4096}[t.Choose(6)]
 	nMsg := 1 + t.Choose(12)
 	withOversize := t.Chance(1, 3)
+	// an application-supplied request monitor (WithRequestMonitor) filters some messages out: they are not
+	// delivered, everything around them is
+	monitorOn := t.Chance(1, 3) && !tlsShim
 	oversizeAt := t.Choose(nMsg)
 
 	// ---- generate the message sequence
@@ -114,6 +121,10 @@ func c07Run(e *Env, tlsShim bool) {
 			m.Opts = append(m.Opts, UintOpt(OptTCPMaxMsgSize, 1152+uint32(i)))
 		default:
 			m.Code, f.signal = []byte{0xe4, 0xe5}[t.Choose(2)], true // Release / Abort
+		}
+		if !f.signal && monitorOn && t.Chance(1, 4) {
+			f.filtered = true
+			e.Fault("monitor.dropsMessage")
 		}
 		if !f.signal {
 			// body length class -> length nibble class of the frame
@@ -201,10 +212,65 @@ func c07Run(e *Env, tlsShim bool) {
 	if busy {
 		topts = append(topts, options.WithReceivedMessageQueueSize(qsize))
 	}
-	ep, err := NewTCPEndpoint(e, a, TCPEndpointCfg{TLS: tlsShim, Opts: topts})
-	if err != nil {
-		e.Violate("HARNESS", "client-setup", "tcp.Client failed: %v", err)
-		return
+	var closedFn func() bool
+	var errsFn func() []string
+	if monitorOn {
+		// the request monitor is a server option: the receiving endpoint is a connection accepted by a real tcp server
+		seen := 0
+		monitor := func(_ *tcpClient.Conn, _ *pool.Message) (bool, error) {
+			// called once per decoded message, in stream order (oversize frames never get here)
+			var f *c07Frame
+			k := seen
+			seen++
+			for _, x := range frames {
+				if x.oversize {
+					break
+				}
+				if k == 0 {
+					f = x
+					break
+				}
+				k--
+			}
+			return f != nil && f.filtered, nil
+		}
+		e.Real("tcp/server.Server (accept, per-connection options incl. the request monitor)")
+		var srvConn *tcpClient.Conn
+		var errs []string
+		lis := newSimListener()
+		sopts := []tcpServer.Option{
+			options.WithMux(router), options.WithMaxMessageSize(maxSize), options.WithConnectionCacheSize(cacheSize),
+			options.WithRequestMonitor(monitor),
+			c10UDPSeam{tick: func(func(now time.Time) bool) {}},
+			options.WithErrors(func(err error) { e.mu.Lock(); errs = append(errs, err.Error()); e.mu.Unlock() }),
+			options.WithOnNewConn(func(cc *tcpClient.Conn) { e.mu.Lock(); srvConn = cc; e.mu.Unlock() }),
+			options.WithInactivityMonitor(100000*time.Second, func(cc *tcpClient.Conn) { _ = cc.Close() }),
+		}
+		if busy {
+			sopts = append(sopts, options.WithReceivedMessageQueueSize(qsize))
+		}
+		srv := tcpServer.New(sopts...)
+		go func() { _ = srv.Serve(lis) }()
+		e.OnCleanup(func() { srv.Stop(); _ = a.Close() })
+		lis.Connect(a)
+		e.Wait()
+		e.mu.Lock()
+		cc := srvConn
+		e.mu.Unlock()
+		if cc == nil {
+			e.Violate("HARNESS", "server-setup", "the tcp server did not create a connection for the accepted stream")
+			return
+		}
+		closedFn = func() bool { return cc.Context().Err() != nil }
+		errsFn = func() []string { e.mu.Lock(); defer e.mu.Unlock(); return append([]string(nil), errs...) }
+	} else {
+		ep, err := NewTCPEndpoint(e, a, TCPEndpointCfg{TLS: tlsShim, Opts: topts})
+		if err != nil {
+			e.Violate("HARNESS", "client-setup", "tcp.Client failed: %v", err)
+			return
+		}
+		closedFn = func() bool { return ep.CC.Context().Err() != nil }
+		errsFn = ep.Errors
 	}
 	e.Real("mux.Router (default handler)")
 	e.Wait()
@@ -234,7 +300,7 @@ func c07Run(e *Env, tlsShim bool) {
 		}
 		return nil
 	}
-	closed := func() bool { return ep.CC.Context().Err() != nil }
+	closed := closedFn
 
 	for released < limit && e.Budget() {
 		f := frameAt(released)
@@ -297,7 +363,7 @@ func c07Run(e *Env, tlsShim bool) {
 		e.mu.Unlock()
 		if nonSignal := func() (n int) {
 			for _, f := range frames {
-				if !f.signal && f.start+len(f.raw) <= released {
+				if !f.signal && !f.filtered && f.start+len(f.raw) <= released {
 					n++
 				}
 			}
@@ -320,7 +386,7 @@ func c07Run(e *Env, tlsShim bool) {
 		if f.start+len(f.raw) > released {
 			break // never fully supplied (run ended early)
 		}
-		if !f.signal {
+		if !f.signal && !f.filtered {
 			want = append(want, got{f.msg.Code, f.msg.Token, f.msg.Opts, f.msg.Payload})
 		}
 	}
@@ -333,7 +399,7 @@ func c07Run(e *Env, tlsShim bool) {
 			e.Violate("C07.R4", fmt.Sprintf("oversize-not-closed:declared>2^32=%v", over.declared > 0xFFFFFFFF), "frame %d declares %d bytes (maximum %d); its complete header was supplied and the body withheld, but the connection is still open", indexOf(frames, over), over.declared, maxSize)
 		}
 	} else if closed() && over == nil {
-		e.Violate("C07.R1", "closed-on-valid-stream", "connection closed itself on a stream of valid frames within the maximum: %v", ep.Errors())
+		e.Violate("C07.R1", "closed-on-valid-stream", "connection closed itself on a stream of valid frames within the maximum: %v", errsFn())
 	}
 	for i := range have {
 		if i >= len(want) {
@@ -364,7 +430,7 @@ func c07Run(e *Env, tlsShim bool) {
 			if f.oversize || f.start+len(f.raw) > releasedBeforeLast {
 				break
 			}
-			if !f.signal {
+			if !f.signal && !f.filtered {
 				mustHave++
 			}
 		}
